@@ -84,6 +84,7 @@ type VerifMgrState struct {
 	ActiveTok         [16]byte
 	Since, PPC        uint32
 	Closed            bool
+	AdvertisedLimit   uint64
 }
 
 type VerifMgr struct {
@@ -181,7 +182,7 @@ func (v *VerifMgr) IsActiveStatelessResetToken(tok [16]byte) bool {
 	return v.m.IsActiveStatelessResetToken(tok)
 }
 
-// SetConnectionIDLimit calls the uQUIC compatibility shim of u_conn_id_manager.go.
+// SetConnectionIDLimit: u_conn_id_manager.go, the limit a spec-driven client advertised.
 func (v *VerifMgr) SetConnectionIDLimit(n uint64) { v.m.SetConnectionIDLimit(n) }
 
 func (v *VerifMgr) State() VerifMgrState {
@@ -195,6 +196,7 @@ func (v *VerifMgr) State() VerifMgrState {
 		Since:             h.packetsSinceLastChange,
 		PPC:               h.packetsPerConnectionID,
 		Closed:            h.closed,
+		AdvertisedLimit:   h.advertisedLimit,
 	}
 	if h.activeStatelessResetToken != nil {
 		s.HasActiveTok = true
@@ -448,14 +450,14 @@ func (v *VerifRouting) AddWithConnID(clientDest, newID []byte, n int) bool {
 
 func (v *VerifRouting) Remove(cid []byte) { v.m.Remove(protocol.ParseConnectionID(cid)) }
 
-func (v *VerifRouting) ReplaceWithClosed(ids [][]byte, local bool, expiry int64) {
+func (v *VerifRouting) ReplaceWithClosed(ids [][]byte, local bool, expiry int64, closePacketLen int) {
 	cs := make([]protocol.ConnectionID, len(ids))
 	for i, b := range ids {
 		cs[i] = protocol.ParseConnectionID(b)
 	}
 	var pkt []byte
 	if local {
-		pkt = []byte{0x1c, 0, 0, 0}
+		pkt = make([]byte, closePacketLen) // non-nil even if empty
 	}
 	v.m.ReplaceWithClosed(cs, pkt, time.Duration(expiry))
 	// number the local stand-ins in creation order (all IDs of one call share one)
@@ -502,11 +504,11 @@ func (v *VerifRouting) Lookup(cid []byte) (kind, ref int) {
 // Deliver hands one packet to whatever the map routes cid to, exactly as
 // Transport.handlePacket does after the lookup, and reports how many CONNECTION_CLOSE
 // retransmissions were queued by it.
-func (v *VerifRouting) Deliver(cid []byte) (kind, ref, sent int) {
+func (v *VerifRouting) Deliver(cid []byte, size int) (kind, ref, sent int) {
 	h, ok := v.m.Get(protocol.ParseConnectionID(cid))
 	kind, ref = v.classify(h, ok)
 	if ok {
-		h.handlePacket(receivedPacket{})
+		h.handlePacket(receivedPacket{data: make([]byte, size)})
 	}
 	for {
 		select {
